@@ -563,6 +563,55 @@ func (c *Ctx) hierLoops(fn *ssa.Function) {
 			c.check(storesTrue, "IGNORESET/HIER-COMPLETE", FuncName(af), P.Pos(r.Pos()), "the hierarchy loop stops early only on a match", "the hierarchy loop is left before all of ALL, category and code were tried")
 		})
 	}
+	// every loop of the decision (hierarchy, index list, token list) is left before exhaustion only on a match:
+	// an early `break` on a non-matching element makes the answer depend on the order in which markers were added
+	nLoops := 0
+	var fam []*ssa.Function
+	for _, f := range P.StaticClosure(fn) {
+		if f == fn || !P.isAnchor(f) {
+			fam = append(fam, f)
+			if f.Parent() == nil {
+				fam = append(fam, f.AnonFuncs...)
+			}
+		}
+	}
+	seenF := map[*ssa.Function]bool{}
+	for _, f := range fam {
+		if seenF[f] || !P.IsProductFunc(f) {
+			continue
+		}
+		seenF[f] = true
+		for _, lp := range naturalLoops(f) {
+			nLoops++
+			for _, ex := range lp.exits {
+				if ex[0] == lp.head {
+					continue // exhaustion
+				}
+				matched := false
+				for _, i2 := range ex[1].Instrs {
+					switch x := i2.(type) {
+					case *ssa.Store:
+						if cv, isC := constBool(x.Val); isC && cv {
+							matched = true
+						}
+					case *ssa.Return:
+						if len(x.Results) == 1 {
+							if cv, isC := constBool(x.Results[0]); isC && cv && f.Synthetic != "range-over-func yield" {
+								matched = true
+							}
+						}
+					}
+				}
+				where := ""
+				if len(ex[0].Instrs) > 0 {
+					where = P.Pos(ex[0].Instrs[len(ex[0].Instrs)-1].Pos())
+				}
+				c.check(matched, "IGNORESET/LOOP-COMPLETE", fmt.Sprintf("%s#loop@%s->%d", FuncName(f), lp.head.Comment, ex[1].Index), where,
+					"a loop of the decision is left early only with a match", "a loop of Contains is left before all candidates were examined and without a match: a marker or token that comes later in insertion order is never tried")
+			}
+		}
+	}
+	c.floor("loops in the decision of IgnoreSet.Contains", nLoops, 1)
 	c.check(n == 2, "IGNORESET/HIER", FuncName(fn)+"#phases", P.Pos(fn.Pos()), "two hierarchy phases (global, scoped)", fmt.Sprintf("%d hierarchy loops in Contains (expected: global phase and scoped phase)", n))
 }
 
@@ -903,6 +952,57 @@ func (c *Ctx) sliceLitDescs(v ssa.Value) []string {
 	var out []string
 	for _, e := range es {
 		out = append(out, e.d)
+	}
+	return out
+}
+
+type natLoop struct {
+	head  *ssa.BasicBlock
+	body  map[*ssa.BasicBlock]bool
+	exits [][2]*ssa.BasicBlock // (from inside, to outside)
+}
+
+// naturalLoops: the natural loops of f (one per header), with their exit edges.
+func naturalLoops(f *ssa.Function) []natLoop {
+	byHead := map[*ssa.BasicBlock]map[*ssa.BasicBlock]bool{}
+	var heads []*ssa.BasicBlock
+	for _, b := range f.Blocks {
+		for _, h := range b.Succs {
+			if !dominates(h, b) {
+				continue
+			}
+			body := byHead[h]
+			if body == nil {
+				body = map[*ssa.BasicBlock]bool{h: true}
+				byHead[h] = body
+				heads = append(heads, h)
+			}
+			stack := []*ssa.BasicBlock{b}
+			for len(stack) > 0 {
+				x := stack[len(stack)-1]
+				stack = stack[:len(stack)-1]
+				if body[x] {
+					continue
+				}
+				body[x] = true
+				stack = append(stack, x.Preds...)
+			}
+		}
+	}
+	var out []natLoop
+	for _, h := range heads {
+		lp := natLoop{head: h, body: byHead[h]}
+		for _, b := range f.Blocks {
+			if !lp.body[b] {
+				continue
+			}
+			for _, s := range b.Succs {
+				if !lp.body[s] {
+					lp.exits = append(lp.exits, [2]*ssa.BasicBlock{b, s})
+				}
+			}
+		}
+		out = append(out, lp)
 	}
 	return out
 }
